@@ -8,6 +8,7 @@ import (
 	"bytes"
 	"fmt"
 	"image"
+	"image/color"
 	"runtime"
 	"time"
 
@@ -137,4 +138,18 @@ func registerCases[T any, PT interface {
 			return PT(&cs).run()
 		},
 	})
+}
+
+func modelName(m color.Model) string {
+	switch m {
+	case color.NRGBAModel:
+		return "NRGBA"
+	case color.YCbCrModel:
+		return "YCbCr"
+	case color.RGBAModel:
+		return "RGBA"
+	case nil:
+		return "nil"
+	}
+	return fmt.Sprintf("%T", m)
 }
